@@ -440,11 +440,16 @@ struct Pools {
 }
 
 impl Pools {
-    fn new() -> Self {
+    fn new(m: &mut Mon) -> Self {
         let widths = WIDTHS.to_vec();
         let pools = widths
             .iter()
             .map(|&b| {
+                // widths the lane does not run are never picked: no pool is built for them (under the
+                // interpreter building all twenty pools used up most of a quick shard's budget)
+                if !m.width_enabled(b) {
+                    return vec![];
+                }
                 let mut p = gen::boundary(b);
                 p.truncate(24);
                 p.push(gen::max(b));
@@ -567,7 +572,7 @@ fn main() {
     if !m.replay_if_requested() {
         let shard = m.cfg.shard;
         let mut r = m.stream(&format!("c04.walk.{shard}"), 0);
-        let mut pools = Pools::new();
+        let mut pools = Pools::new(&mut m);
         let steps = m.iters(40_000);
         // weighted towards non-aligned widths
         let weights: Vec<usize> = WIDTHS.iter().map(|&b| if b % 64 == 0 { 1 } else { 3 }).collect();
